@@ -511,8 +511,19 @@ fn describe_single(id: &str, tier: Tier, idx: u64) -> String {
 pub struct KnownFinding {
     pub property: String,
     pub sig_prefix: String,
+    /// all of these must occur in the signature as well
+    pub sig_contains: Vec<String>,
     pub what: String,
     pub status: String,
+}
+
+impl KnownFinding {
+    pub fn matches(&self, property: &str, sig: &str) -> bool {
+        self.property == property
+            && self.status == "open"
+            && sig.starts_with(&self.sig_prefix)
+            && self.sig_contains.iter().all(|c| sig.contains(c.as_str()))
+    }
 }
 
 pub fn load_known_findings() -> Vec<KnownFinding> {
@@ -526,6 +537,10 @@ pub fn load_known_findings() -> Vec<KnownFinding> {
         out.push(KnownFinding {
             property: f["property"].as_str().unwrap_or("").to_string(),
             sig_prefix: f["sig"].as_str().unwrap_or("\u{0}").to_string(),
+            sig_contains: f["sig_contains"]
+                .as_array()
+                .map(|a| a.iter().filter_map(|x| x.as_str().map(|s| s.to_string())).collect())
+                .unwrap_or_default(),
             what: f["what"].as_str().unwrap_or("").to_string(),
             status: f["status"].as_str().unwrap_or("open").to_string(),
         });
@@ -650,9 +665,7 @@ pub fn orchestrate(prop: &dyn Property, tier: Tier) -> i32 {
     let mut known_hits: BTreeMap<String, u64> = BTreeMap::new();
     let mut unknown: Vec<&Violation> = vec![];
     for v in &acc.violations {
-        let hit = known.iter().find(|k| {
-            k.property == id && k.status == "open" && v.sig.starts_with(&k.sig_prefix)
-        });
+        let hit = known.iter().find(|k| k.matches(id, &v.sig));
         match hit {
             Some(k) => *known_hits.entry(format!("{} [{}]", k.what, k.sig_prefix)).or_insert(0) += 1,
             None => unknown.push(v),
@@ -687,7 +700,7 @@ pub fn orchestrate(prop: &dyn Property, tier: Tier) -> i32 {
             }
         }
         let same_before = unknown[..n].iter().filter(|w| w.sig == v.sig).count();
-        if same_before < 2 && n < 400 {
+        if same_before < 2 && n < 4000 {
             let path = format!("{dir}/{}_{}_{n}.json", tier.name(), v.idx);
             let body = json!({
                 "property": id, "tier": tier.name(), "idx": v.idx, "case": v.case,
@@ -705,9 +718,7 @@ pub fn orchestrate(prop: &dyn Property, tier: Tier) -> i32 {
     let _ = overflow;
     for (k, n) in &acc.counters {
         if let Some(sig) = k.strip_prefix("violation[").and_then(|r| r.strip_suffix(']')) {
-            let is_known = known
-                .iter()
-                .any(|f| f.property == id && f.status == "open" && sig.starts_with(&f.sig_prefix));
+            let is_known = known.iter().any(|f| f.matches(id, sig));
             println!("  {} x{n} {sig}", if is_known { "known" } else { "VIOLATION-SIG" });
             if !is_known {
                 exit = 1;
